@@ -195,6 +195,23 @@ class CollationManager(context_class_base):
     def find(self, a: str, b: str) -> int:
         return self.strxfrm(a).find(self.strxfrm(b))
 
+    def find_match(self, a: str, b: str) -> tuple[int, int]:
+        """
+        Returns the positions in *a* of the start and of the end of the first minimal
+        match of *b*, or (-1, -1) if there is no match. The positions found in the
+        transformed strings are usable only if the transformation keeps the lengths.
+        """
+        key_a, key_b = self.strxfrm(a), self.strxfrm(b)
+        if len(key_a) == len(a) and len(key_b) == len(b):
+            index = key_a.find(key_b)
+            return (index, index + len(b)) if index >= 0 else (-1, -1)
+
+        for start in range(len(a) + 1):
+            for end in range(start, len(a) + 1):
+                if self.strxfrm(a[start:end]) == key_b:
+                    return start, end
+        return -1, -1
+
     def startswith(self, a: str, b: str) -> bool:
         return self.strxfrm(a).startswith(self.strxfrm(b))
 
